@@ -71,6 +71,33 @@ def script(dname, rng, evicted, paths):
     return ops + after + final
 
 
+def rules_script(dname, rng, paths):
+    """which operations keep, set and clear an expiry, interleaved on different keys through every path: an Incr/Decr on
+    a key that has an expiry keeps it, and must not leak it into later GetPut / Incr / Decr calls on other keys"""
+    ops = []
+    n = 0
+    for path in paths:
+        n += 1
+        a, b, c, d, e = [dmaplib.hx("%s-r%d%s" % (dname, n, x)) for x in "abcde"]
+        pp = [p for p in paths if p != "pipe"]
+        ops += [{"op": "incr", "c": path, "d": dname, "k": a, "delta": 5},
+                {"op": "expire", "c": rng.choice(pp), "d": dname, "k": a, "ms": 60000},
+                {"op": rng.choice(["incr", "decr"]), "c": path, "d": dname, "k": a, "delta": 2},      # keeps the expiry
+                {"op": "dump", "d": dname, "k": a},
+                {"op": "getput", "c": rng.choice(paths), "d": dname, "k": b, "v": dmaplib.hx("g1")},  # no expiry
+                {"op": "dump", "d": dname, "k": b},
+                {"op": "incr", "c": rng.choice(paths), "d": dname, "k": c, "delta": 1},               # no expiry
+                {"op": "dump", "d": dname, "k": c},
+                {"op": "put", "c": rng.choice(pp), "d": dname, "k": d, "v": dmaplib.hx("p"), "px": 60000},
+                {"op": "getput", "c": path, "d": dname, "k": d, "v": dmaplib.hx("g2")},               # clears the expiry
+                {"op": "dump", "d": dname, "k": d},
+                {"op": "decr", "c": rng.choice(paths), "d": dname, "k": e, "delta": 3},
+                {"op": "dump", "d": dname, "k": e},
+                {"op": "get", "c": path, "d": dname, "k": b},
+                {"op": "get", "c": path, "d": dname, "k": c}]
+    return ops
+
+
 def gen_groups(res):
     groups = []
     sid = 0
@@ -91,6 +118,11 @@ def gen_groups(res):
                     ops = [o for o in ops if o]
                 scs.append({"id": sid, "ops": ops, "default_ttl": {dname + "T": TTL}, "_dT": dname + "T"})
                 sid += 1
+            rng = vlib.rng_for(res.seed, PID, "rules", sid)
+            dname = "c09r%d" % sid
+            scs.append({"id": sid, "ops": rules_script(dname, rng, dmaplib.ALLPATHS if res.tier == "thorough" else PATHS),
+                        "default_ttl": {}, "_dT": dname + "T"})
+            sid += 1
         # the per-DMap default TTL is a cluster configuration item
         c = dict(cfg)
         c["dmaps"] = {s["_dT"]: {"ttl_ms": TTL} for s in scs}
@@ -103,7 +135,8 @@ def run(res):
         res, PID, gen_groups, dmaplib.judge_seq, shard=1,
         rule="scripts in three phases around a %d ms deadline on (N,R) in {(2,2),(3,1)}: every ttl source {EX,PX,EXAT,PXAT,DMap default TTL,Expire} x "
              "every probe {Get, GetPut old value, Incr base, NX, XX, Expire, Lease} x client paths, reads before the deadline, probes after it, "
-             "with background eviction either left alone or forced over every member; judged by the reference semantics with a %d ms margin and the "
+             "with background eviction either left alone or forced over every member; plus scripts of the ttl rules (Incr/Decr on a key with an "
+             "expiry keeps it, GetPut clears it, neither leaks an expiry into later atomic calls on other keys) through every path; judged by the reference semantics with a %d ms margin and the "
              "mirror predicate; the same histories are evaluated by Model/DMap.v inside Coq" % (TTL, dmaplib.MARGIN))
 
 
